@@ -7,6 +7,7 @@ package main
 
 import (
 	"context"
+	"errors"
 	"reflect"
 	"runtime"
 	"time"
@@ -20,6 +21,8 @@ type runKeyT int
 var runKey runKeyT
 
 func getRun(ctx context.Context) *run { return ctx.Value(runKey).(*run) }
+
+var errNoSubscription = errors.New("subscriptions are not supported using this protocol")
 
 // nodeObj is the Go value of every object-typed field.  edge is added to the i argument of the
 // fields below it (the per-edge copies of a connection's node sub-selection have consecutive ids).
@@ -247,8 +250,27 @@ func buildAPI() *apifu.API {
 		cfg.AddQueryField(n, f)
 	}
 	// public hook: the harness sees every entry into and return from the request's idle handler
+	cfg.AddSubscription("ev", &graphql.FieldDefinition{
+		Type: nodeType,
+		Resolve: func(ctx graphql.FieldContext) (interface{}, error) {
+			if ctx.IsSubscribe {
+				h := ctx.Context.Value(runKey).(*wsHolder)
+				return &apifu.SubscriptionSourceStream{EventChannel: h.stream, Stop: h.stop}, nil
+			} else if ctx.Object != nil {
+				return ctx.Object, nil
+			}
+			return nil, errNoSubscription
+		},
+	})
 	cfg.Execute = func(req *graphql.Request, info *apifu.RequestInfo) *graphql.Response {
-		r := getRun(req.Context)
+		var r *run
+		switch v := req.Context.Value(runKey).(type) {
+		case *run:
+			r = v
+		case *wsHolder: // one execution per subscription event, each with its own run
+			r = v.take()
+			req.Context = context.WithValue(req.Context, runKey, r)
+		}
 		if !r.syncMode {
 			orig := req.IdleHandler
 			r.execGoid = curGoid()
